@@ -148,7 +148,8 @@ Proof.
   - destruct i; discriminate.
   - destruct i as [|i].
     + cbn in H. inversion H; subst. cbn [firstn skipn count]. lia.
-    + cbn [nth_error] in H. cbn [firstn skipn count]. rewrite (IH i H). lia.
+    + cbn [nth_error] in H. specialize (IH i H). change (skipn (S (S i)) (a :: l)) with (skipn (S i) l).
+      change (firstn (S i) (a :: l)) with (a :: firstn i l). cbn [count]. lia.
 Qed.
 
 Lemma count_upd {A} (f : A -> bool) l i o x :
@@ -193,3 +194,176 @@ Qed.
 
 Lemma make_hot_not_nil t h : make_hot t h <> [].
 Proof. intros H. pose proof (in_make_hot t h) as Hi. rewrite H in Hi. destruct Hi. Qed.
+
+(* ---------------------------------------------------------------------- *)
+(* regions of the runtime thread's program, relative to the point where a
+   wake is consumed (the poll of the main future / the pop from the queue)  *)
+
+Inductive region := Pre | Post | Idle.
+(* Pre:  the runtime reaches the consumption point without any blocking wait
+   Post: past the consumption point, before the reset that precedes the wait
+   Idle: between that reset and the return of the wait                       *)
+
+Definition reg_main (s : st) : region :=
+  match pc (r s) with
+  | RMain0 | RSetAwake1 | RPollEntries | RClear | RSetAwake2 => Pre
+  | RMain1 | RDrainLoad | RDrainPop | RDrainSub | RRun | RRunning
+  | RFlushArm | RFlushSubmit | RFlushReset => Post
+  | RExtWait | RWait => Idle
+  | RReset => if ext (c s) then Pre else Post
+  | RArm | REnter => if ext (c s) then Pre else Idle
+  end.
+
+Definition reg_drain (s : st) : region :=
+  match pc (r s) with
+  | RMain1 | RDrainLoad | RDrainPop => Pre
+  | _ => reg_main s
+  end.
+
+Definition ob (g : region) (s : st) : Prop :=
+  match g with
+  | Pre => True
+  | Post => has_notified (flag (d s)) = true
+  | Idle => nw (r s) = false \/ has_notified (flag (d s)) = true
+  end.
+
+Definition is_write (p : wpc) : bool := match p with WWrite _ => true | _ => false end.
+Definition writers (s : st) : bool := existsb (fun w => is_write (wp w)) (wk s).
+
+Definition mid_push (p : wpc) : bool :=
+  match p with WReserve | WPush _ | WFetch KSpin | WWrite KSpin => true | _ => false end.
+Definition reserving (p : wpc) : bool :=
+  match p with WPush _ | WFetch KSpin | WWrite KSpin => true | _ => false end.
+Definition pushed (p : wpc) : bool :=
+  match p with WFetch KPushed | WWrite KPushed | WFinish | WDone => true | _ => false end.
+Definition notified_after (p : wpc) : bool :=
+  match p with WWrite KPushed | WFinish | WDone => true | _ => false end.
+Definition pushing_w (t : nat) (w : wst) : bool :=
+  match tgt w with Some t' => Nat.eqb t t' && mid_push (wp w) | None => false end.
+Definition pushing (t : nat) (ws : list wst) : bool := existsb (pushing_w t) ws.
+
+Definition main_pc (p : wpc) : bool :=
+  match p with WIdle | WFetch KMain | WWrite KMain | WDone => true | _ => false end.
+Definition task_pc (p : wpc) : bool :=
+  match p with WFetch KMain | WWrite KMain => false | _ => true end.
+
+(* program points at which NEED_PUSH_NOTIFIER may be set *)
+Definition np_pc (p : rpc) : bool :=
+  match p with
+  | RClear | RSetAwake2 | RMain0 | RMain1 | RDrainLoad | RDrainPop | RDrainSub
+  | RRun | RRunning | RFlushArm | RReset | RArm => true
+  | _ => false
+  end.
+(* program points between the end of a tick and the wait *)
+Definition h_pc (p : rpc) : bool :=
+  match p with
+  | RReset | RArm | REnter | RWait | RFlushArm | RFlushSubmit | RFlushReset | RExtWait => true
+  | _ => false
+  end.
+Definition ext_pc (p : rpc) : bool :=
+  match p with RFlushArm | RFlushSubmit | RFlushReset | RExtWait => true | _ => false end.
+
+Record Inv (s : st) : Prop := mk_inv {
+  i_idle_flag : reg_main s = Idle ->
+    fl_idle (flag (d s)) = true \/ has_notified (flag (d s)) = true;
+  i_efd : reg_main s = Idle -> has_notified (flag (d s)) = true ->
+    0 < efd (d s) \/ writers s = true;
+  i_sqarm : sqarm (d s) = true -> pc (r s) = REnter \/ pc (r s) = RFlushSubmit;
+  i_need : need_push (d s) = true -> np_pc (pc (r s)) = true;
+  i_todo : todo (r s) <> [] -> pc (r s) = RClear;
+  i_arm : uring (c s) = true ->
+    karmed (d s) = true \/ sqarm (d s) = true \/ need_push (d s) = true \/
+    In CFinal (cq (d s)) \/ In CFinal (todo (r s));
+  i_hot : h_pc (pc (r s)) = true -> rem (r s) = false -> hot (e s) = [];
+  i_wait : pc (r s) = RWait -> nw (r s) = true /\ rem (r s) = false /\ ext (c s) = false;
+  i_ext : ext_pc (pc (r s)) = true -> ext (c s) = true;
+  i_main : forall i w, nth_error (wk s) i = Some w -> tgt w = None ->
+    main_effective (wp w) = true -> seen w = false -> ob (reg_main s) s;
+  i_qmem : forall t i, In (t, i) (queue (e s)) ->
+    exists w, nth_error (wk s) i = Some w /\ tgt w = Some t /\ pushed (wp w) = true;
+  i_q : forall t i w, In (t, i) (queue (e s)) -> nth_error (wk s) i = Some w ->
+    notified_after (wp w) = true -> ob (reg_drain s) s;
+  i_sched : forall t, nth_error (sched (e s)) t = Some true ->
+    In t (hot (e s)) \/ (exists i, In (t, i) (queue (e s))) \/ pushing t (wk s) = true;
+  i_seen : forall i w t, nth_error (wk s) i = Some w -> tgt w = Some t ->
+    task_effective (wp w) = true -> seen w = false -> nth_error (sched (e s)) t = Some true;
+  i_pending : pending (e s) =
+    length (queue (e s)) + count (fun w => reserving (wp w)) (wk s) + drained (r s);
+  i_drained : drained (r s) <> 0 -> pc (r s) = RDrainPop \/ pc (r s) = RDrainSub;
+  i_cap : length (queue (e s)) <= qcap (c s);
+  i_shape : forall i w, nth_error (wk s) i = Some w ->
+    match tgt w with
+    | None => main_pc (wp w) = true
+    | Some t => task_pc (wp w) = true /\ t < length (sched (e s))
+    end
+}.
+
+Arguments has_notified : simpl never.
+Arguments fl_wake : simpl never.
+Arguments fl_idle : simpl never.
+
+Lemma nth_error_init_wk tg i w :
+  nth_error (map (fun tg => mk_w tg WIdle false) tg) i = Some w -> wp w = WIdle.
+Proof.
+  intros H. apply nth_error_map_inv in H. destruct H as (x & _ & ->). reflexivity.
+Qed.
+
+Lemma count_init tg : count (fun w => reserving (wp w)) (map (fun tg => mk_w tg WIdle false) tg) = 0.
+Proof. induction tg as [|a l IH]; cbn; [reflexivity|exact IH]. Qed.
+
+Lemma nth_error_repeat_false n t : nth_error (repeat false n) t = Some true -> False.
+Proof.
+  revert t. induction n as [|n IH]; intros t H; [destruct t; discriminate|].
+  destruct t as [|t]; cbn in H; [discriminate|eauto].
+Qed.
+
+(* threads of the initial state must name existing tasks *)
+Definition targets_ok (ntasks : nat) (tg : list (option nat)) : Prop :=
+  forall t, In (Some t) tg -> t < ntasks.
+
+Lemma init_inv cf n tg : targets_ok n tg -> Inv (init cf n tg).
+Proof.
+  intros Hok. constructor; cbn; intros; try discriminate; try tauto; try lia.
+  - exfalso. eapply nth_error_repeat_false; eauto.
+  - apply nth_error_init_wk in H. rewrite H in H1. discriminate.
+  - rewrite count_init. reflexivity.
+  - pose proof H as H'. apply nth_error_map_inv in H'. destruct H' as (x & Hx & ->). cbn.
+    destruct x as [t|]; [|reflexivity]. split; [reflexivity|].
+    rewrite repeat_length. apply Hok. eapply nth_error_In; eauto.
+Qed.
+
+(* ---------------------------------------------------------------------- *)
+(* preservation                                                            *)
+
+Ltac dst s :=
+  destruct s as [[ur ex qc mx] [fl ef ka sq np cq0] [qu pe sc sg ho] [p nw0 rm td dr bu] ws].
+
+Ltac dinv H :=
+  destruct H as [I_idle I_efd I_sqarm I_need I_todo I_arm I_hot I_wait I_ext I_main I_qmem I_q
+                 I_sched I_seen I_pending I_drained I_cap I_shape].
+
+Ltac red_all :=
+  cbn [c d e r wk uring ext qcap maxi flag efd karmed sqarm need_push cq queue pending sched sching
+       hot pc nw rem todo drained budget
+       d_flag d_efd d_karmed d_sqarm d_need d_cq e_queue e_pending e_sched e_sching e_hot
+       r_pc r_nw r_rem r_todo r_drained r_budget s_d s_e s_r s_wk goto
+       reg_main reg_drain ob writers] in *.
+
+Lemma in_app_l {A} (x : A) l1 l2 : In x l1 -> In x (l1 ++ l2).
+Proof. intros H. apply in_or_app. left. exact H. Qed.
+
+Lemma inv_kernel s l s' :
+  (l = LKNotify \/ l = LKOther \/ l = LKTerm) -> Inv s -> step s l = Some s' -> Inv s'.
+Proof.
+  intros Hl Hi Hs. dst s. dinv Hi. red_all.
+  destruct Hl as [->|[->| ->]]; unfold step, step_v in Hs; red_all.
+  - destruct (ur && ka && Nat.ltb 0 ef); [|discriminate]. inversion Hs; subst; clear Hs.
+    constructor; red_all; eauto.
+    intros Hu. specialize (I_arm Hu). intuition auto using in_app_l.
+  - inversion Hs; subst; clear Hs.
+    constructor; red_all; eauto.
+    intros Hu. specialize (I_arm Hu). intuition auto using in_app_l.
+  - destruct (ur && ka); [|discriminate]. inversion Hs; subst; clear Hs.
+    constructor; red_all; eauto.
+    intros Hu. right. right. right. left. apply in_or_app. right. left. reflexivity.
+Qed.
